@@ -207,3 +207,18 @@ PROPS["C19"].update(dict(modules=["EdVerif.Props.Structural.Returns", "EdVerif.P
     trusted_extra=[TRANSLATORS_SSA_NOTE],
     text="Lean-checked SSA provenance predicates on the regenerated code (returned pointers/slices derive from allocations made in the call; no global is written outside init/Once) + mutate-and-recall " + CORR,
     technique="Lean 4 checked SSA freshness/no-global-store predicates + mutate-and-recall correspondence"))
+
+_proof("C01", ["EdVerif.Props.C01"], "Proved: for every valid scalar (value k in [0,l)) and valid points (any representation, any torsion component) ScalarMult, ScalarBaseMult, "
+       "VarTimeDoubleScalarBaseMult, MultiScalarMult and VarTimeMultiScalarMult return a valid point representing the sum of [k_i]P_i in the Edwards group, zero terms give the identity "
+       "(digit recodings, lookup tables, selects, Horner/comb/NAF loops). The model functions take no prior receiver; that the real code's result is independent of the receiver "
+       "(zero value, used, aliased) is observed by the correspondence on every generated case.",
+       "Lean 4 refinement proof (signed radix-16 / NAF recoding, tables, loops over an abstract group) + limb-exact correspondence incl. digits/tables/selects")
+_proof("C07", ["EdVerif.Props.C07"], "Proved on the regenerated fiat kernels (word-by-word Montgomery iterations included): Add/Subtract/Negate/Multiply/MultiplyAdd/Invert/Equal are +,-,unary -,*,x*y+z,inverse (0 -> 0),= in ZMod l; "
+       "zero value is 0; Equal returns exactly 0 or 1; l is prime.",
+       "Lean 4 proof on fiat kernels regenerated from Go source + correspondence incl. Montgomery-limb boundary patterns")
+_proof("C08", ["EdVerif.Props.C08"], "Proved: Bytes = 32 LE bytes of the value in [0,l); SetCanonicalBytes accepts iff length 32 and value < l, round-trips; SetUniformBytes = value mod l; "
+       "SetBytesWithClamping = RFC 8032 clamp mod l; other lengths rejected.",
+       "Lean 4 proof (lexicographic = numeric order, wide reduction constants, clamping) + correspondence")
+PROPS["C03"]["modules"] = ["EdVerif.Props.Structural.Ct", "EdVerif.Props.Structural.CtExact", "EdVerif.Props.Structural.WellFormed", "EdVerif.Props.C20"]
+for _pid in ("C11", "C14", "C15", "C18", "C19"):
+    PROPS[_pid]["modules"] = PROPS[_pid]["modules"] + ["EdVerif.Props.Structural.WellFormed", "EdVerif.Props.Structural.ProvLabels"]
